@@ -950,9 +950,8 @@ def _run_http_producer_turn(
     """
     server_id = app._server.server_id
     protocol_name = app._server.protocol_name
-    # Native sink — see the note in this function's docstring. `tell()` (used for
-    # the max_bytes check below) is supported; `seek()` is not needed on a
-    # write-only stream.
+    # Native sink — see the note in this function's docstring. `seek()` is not
+    # needed on a write-only stream.
     resp_buf = pa.BufferOutputStream()
     # Compress INTO the IPC stream when a codec was negotiated, instead of
     # building the whole plaintext body and squeezing it afterwards. Arrow's
@@ -976,6 +975,17 @@ def _run_http_producer_turn(
             _current_body_precompressed.set(True)
         except Exception:
             write_sink = resp_buf
+    # The max_bytes check below measures ``write_sink.tell()`` — the IPC bytes
+    # this turn has written — NOT ``resp_buf.tell()``.  With a codec in front,
+    # ``resp_buf`` only sees what the compressor has flushed so far, which lags
+    # the producer by the codec's internal buffering (tens of KiB): measured
+    # there, a compressed continuation turn kept producing long past the cap
+    # (cap 1000, 16 KiB batches, zstd: 9 batches / 146 KB in one body) where an
+    # uncompressed turn — and the init turn, which is never compressed inline —
+    # stops after the first batch that crosses it.  ``CompressedOutputStream.tell()``
+    # counts uncompressed bytes, so every turn now breaks at the same point
+    # whatever codec was negotiated; the compressed body is at most that size
+    # plus the codec's framing.
     max_bytes = app._max_response_bytes
     max_external_bytes = app._max_externalized_response_bytes
     externalization_enabled = (
@@ -987,7 +997,7 @@ def _run_http_producer_turn(
         cumulative_bytes = 0
         # Bytes uploaded to external storage across this HTTP turn.  Tracked
         # separately from the HTTP body cap (``max_response_bytes`` measures
-        # ``resp_buf.tell()`` only — externalised payloads do not occupy the
+        # ``write_sink.tell()`` only — externalised payloads do not occupy the
         # wire body).  External payload size is governed by
         # ``max_externalized_response_bytes``.
         cumulative_external_bytes = 0
@@ -1026,7 +1036,7 @@ def _run_http_producer_turn(
         try:
             while True:
                 # Snapshot the budgets remaining at the start of this iteration.
-                remaining_wire = None if max_bytes is None else max(0, max_bytes - resp_buf.tell())
+                remaining_wire = None if max_bytes is None else max(0, max_bytes - write_sink.tell())
                 remaining_external = (
                     None
                     if max_external_bytes is None or not externalization_enabled
@@ -1097,7 +1107,7 @@ def _run_http_producer_turn(
                 # break after every produce cycle so the client receives
                 # data incrementally.  When ``max_bytes`` is configured,
                 # buffer multiple batches until the HTTP body fills the cap.
-                should_continue = max_bytes is not None and resp_buf.tell() < max_bytes
+                should_continue = max_bytes is not None and write_sink.tell() < max_bytes
                 if not should_continue:
                     # Serialize the cursor into a continuation token.  Only the
                     # cursor: the call token was minted at /init and either the
